@@ -41,13 +41,23 @@ pub extern "C" fn tsrun_fulfill_orders(
     }
 
     // Convert C responses to Rust
+    let heap = &ctx.interp.heap;
     let rust_responses: Vec<OrderResponse> = (0..count)
         .map(|i| unsafe {
             let resp = &*responses.add(i);
             let result = if resp.error.is_null() {
                 // Success case
                 if let Some(val) = resp.value.as_ref() {
-                    Ok(RuntimeValue::unguarded(val.value().clone()))
+                    // The host may release its handle right after this call: the stored
+                    // response must keep an object alive on its own until the script reads it.
+                    let value = val.value().clone();
+                    if let JsValue::Object(ref obj) = value {
+                        let guard = heap.create_guard();
+                        guard.guard(obj.cheap_clone());
+                        Ok(RuntimeValue::with_guard(value, guard))
+                    } else {
+                        Ok(RuntimeValue::unguarded(value))
+                    }
                 } else {
                     Ok(RuntimeValue::unguarded(JsValue::Undefined))
                 }
